@@ -7,7 +7,11 @@ spreads (labels, `if` via literal and variable, nested, overlapping, the same fi
 through the real incremental executor with synchronous resolvers and through the extracted model `defer`;
 compared: initial data incl. key order, initial error paths, the set of pending (path, label) announced over
 the whole run, per delivered execution group its path and set of response keys (and that the id it is
-delivered under is one of the model's delivery groups), the merged final data, resolver calls of the whole run."""
+delivered under is one of the model's delivery groups), the merged final data, resolver calls of the whole run.
+Runs with errors: the error clause of C04 is evaluated on the implementation (merged data vs its own execution with
+@experimental_disableErrorPropagation: nulls explained by a reported error at or below, missing keys belonging to
+failed / withheld execution groups, every error of the reference reported or at an undelivered position) and on the
+model's outputs; the implementation's non-propagating run is compared with the model's `np` run."""
 from __future__ import annotations
 
 import asyncio
@@ -35,6 +39,11 @@ ASSUMPTIONS = [
     "fragment arguments, async resolvers",
     "execution groups are compared as a multiset of (path, set of response keys); payload boundaries, ids and order "
     "are free; pending announcements are compared as a set of (path, label)",
+    "error runs: which execution group values are withheld follows the work queue's rule (a failed group takes its "
+    "subtree with it; a value is delivered iff one of its delivery groups has no failed group on its chain), part of "
+    "the Coq model (`deliver`); that the delivered values can always be merged is checked here on every run (the "
+    "error-clause theorems assume it); the non-propagating reference is the model's `np` mode = "
+    "@experimental_disableErrorPropagation (handle_field_error with error_propagation False)",
 ]
 
 
@@ -219,8 +228,9 @@ def dec_dresponse(ints):
     data, errs, calls, pls = w[2]
     payloads = []
     for p in pls[2]:
-        path, groups, pdata, perrs, pcalls = p[2]
+        path, groups, pdata, perrs, pcalls = p[2][:5]
         payloads.append({
+            "keys": [G.s_of(k[1]) for k in p[2][5][2]] if len(p[2]) > 5 else [],
             "path": G.canon_wpath(path),
             # per delivery group its chain (the usage first, then its ancestors) of (id, depth, label)
             "groups": [[(n[1][0], n[1][1], G.s_of(n[2][0][1]) if n[1][2] else None) for n in ch[2]] for ch in groups[2]],
@@ -287,7 +297,7 @@ def observe_impl(r):
     for p in [initial] + payloads:
         for pe in p.get("pending", []):
             pend[pe["id"]] = (tuple(pe["path"]), pe.get("label"))
-    groups, failed = [], set()
+    groups, failed, failed_errors = [], set(), []
     for p in payloads:
         for inc in p.get("incremental", []):
             if "items" in inc:
@@ -299,12 +309,14 @@ def observe_impl(r):
         for c in p.get("completed", []):
             if c.get("errors"):
                 failed.add(pend.get(c["id"]))
+                failed_errors.extend(tuple(e["path"]) for e in c["errors"] if e.get("path") is not None)
     if left:
         problems.append(f"ids {sorted(left)} announced but never completed")
     errs = sorted((tuple(e["path"]) for e in initial.get("errors", [])), key=repr)
     return {"data": G.canon_pyjson(initial.get("data")), "errors": errs, "pending": set(pend.values()),
             "initial_pending": {(tuple(pe["path"]), pe.get("label")) for pe in initial.get("pending", [])},
-            "groups": groups, "merged": G.canon_pyjson(merged), "problems": problems, "failed": failed}
+            "groups": groups, "merged": G.canon_pyjson(merged), "problems": problems, "failed": failed,
+            "failed_errors": failed_errors}
 
 
 def observe_model(m):
@@ -334,6 +346,79 @@ def observe_model(m):
     initial = {ch[0][1] for ch in chains if not any(a[0] in owners for a in ch[1:])}
     return {"data": m["data"], "errors": m["errors"], "pending": pend, "groups": groups, "failed": failed,
             "roots": initial}
+
+
+def np_document(doc, operation_name=None):
+    """The same document with @experimental_disableErrorPropagation on the executed operation."""
+    import dataclasses
+    from graphql import parse
+    from graphql.language import ast as A
+    dn = parse("query @experimental_disableErrorPropagation { a }").definitions[0].directives[0]
+    defs = []
+    for d in doc.definitions:
+        if isinstance(d, A.OperationDefinitionNode) and (operation_name is None or (d.name and d.name.value == operation_name)):
+            d = dataclasses.replace(d, directives=tuple(d.directives or ()) + (dn,))
+        defs.append(d)
+    return dataclasses.replace(doc, definitions=tuple(defs))
+
+
+def explained(m, n, path, errors, withheld):
+    """The error clause: m is the non-propagating reference n with subtrees replaced by null - each with a reported
+    error at or below - and keys withheld - each key of an execution group that failed or was not delivered.
+    -> None or a description of the first unexplained difference."""
+    if m is None:
+        if n is None or any(e[:len(path)] == path for e in errors):
+            return None
+        return f"null at {path} without a reported error at or below (reference has a value)"
+    if isinstance(m, tuple) and m[0] == "obj":
+        if not (isinstance(n, tuple) and n[0] == "obj"):
+            return f"object at {path}, reference has {n!r:.60}"
+        md, nd = dict(m[1]), dict(n[1])
+        for k in md:
+            if k not in nd:
+                return f"key {k} at {path} is not in the reference"
+        for k, v in nd.items():
+            if k not in md:
+                if (path, k) not in withheld:
+                    return f"key {k} at {path} is missing and belongs to no failed or withheld execution group"
+            else:
+                r = explained(md[k], v, path + (k,), errors, withheld)
+                if r:
+                    return r
+        return None
+    if isinstance(m, tuple) and m[0] == "list":
+        if not (isinstance(n, tuple) and n[0] == "list" and len(n[1]) == len(m[1])):
+            return f"list at {path} differs in kind or length from the reference"
+        for i, (a, b) in enumerate(zip(m[1], n[1])):
+            r = explained(a, b, path + (i,), errors, withheld)
+            if r:
+                return r
+        return None
+    return None if m == n else f"value at {path}: {m!r:.40} vs reference {n!r:.40}"
+
+
+def not_delivered(m, path, at, withheld):
+    """hidden: following `path` in m meets a null, or an object that lacks the next key while the key is withheld"""
+    if m is None:
+        return True
+    if not path:
+        return False
+    seg, rest = path[0], path[1:]
+    if isinstance(m, tuple) and m[0] == "obj" and isinstance(seg, str):
+        d = dict(m[1])
+        if seg in d:
+            return not_delivered(d[seg], rest, at + (seg,), withheld)
+        return (at, seg) in withheld
+    if isinstance(m, tuple) and m[0] == "list" and isinstance(seg, int) and seg < len(m[1]):
+        return not_delivered(m[1][seg], rest, at + (seg,), withheld)
+    return False
+
+
+def unaccounted(ref_errors, reported, m, withheld):
+    """errors of the non-propagating reference that are neither reported at the same path nor at a position
+    that is not delivered"""
+    rep = set(reported)
+    return [e for e in ref_errors if e not in rep and not not_delivered(m, e, (), withheld)]
 
 
 def unordered(c):
@@ -513,6 +598,62 @@ def judge(ck, sdl, schema, c, outs, early):
         if not iref["errors"] and unordered(impl["merged"]) != unordered(iref["data"]):
             ck.violation(kid + ":c04", "reassembled data differs from the implementation's own non-incremental response",
                          dict(replay_dict(sdl, c, "c04", impl["merged"], iref["data"])))
+    # runs with errors: the error clause - the reassembled data is the non-propagating reference with subtrees nulled
+    # (a reported error at or below) and keys withheld (execution groups that failed or were not delivered)
+    if len(outs) > 5 and (nerr or model["errors"] or any(p["errors"] or p["data"] is None for p in model["payloads"])):
+        npm, raw = dec_dresponse(outs[4]), dec_dresponse(outs[5])
+        if npm["kind"] == "response" and raw["kind"] == "response" and merged_model is not None:
+            ck.count("error_clause_checked")
+            delivered = {(p["path"], frozenset(p["keys"])) for p in model["payloads"] if p["data"] is not None}
+            withheld = {(p["path"], k) for p in raw["payloads"] for k in p["keys"]
+                        if (p["path"], frozenset(p["keys"])) not in delivered}
+            merrs = list(model["errors"]) + [p["path"] + e for p in model["payloads"] for e in p["errors"]]
+            why = explained(merged_model, npm["data"], (), merrs, withheld)
+            lost = unaccounted(npm["errors"], merrs, merged_model, withheld)
+            if lost:
+                why = why or f"errors of the reference neither reported nor at an undelivered position: {lost[:3]}"
+            if why:
+                ck.violation(kid + ":clause", "model: error clause fails for the model's own outputs: " + why,
+                             dict(replay_dict(sdl, c, "error-clause-model", merged_model, npm["data"])))
+            try:
+                inp = G.run_impl(schema, np_document(c04.strip_directives(c["doc"]), c["operation_name"]), c["data"],
+                                 c["variables"], c["operation_name"])
+            except Exception as e:  # noqa: BLE001
+                inp = {"kind": "raised", "messages": [repr(e)]}
+            if inp["kind"] == "response":
+                ck.count("nonpropagating_reference_checked")
+                if inp["data"] != npm["data"] or inp["errors"] != npm["errors"]:
+                    ck.violation(kid + ":np", "execution with error propagation disabled differs from the model's non-propagating run",
+                                 dict(replay_dict(sdl, c, "np-reference", c02.strip(inp), npm)))
+                # error propagation disabled: the incremental run reassembles exactly, nothing fails
+                if len(outs) > 6:
+                    npi = dec_dresponse(outs[6])
+                    try:
+                        rnp = run_incremental(schema, np_document(c["doc"], c["operation_name"]), c["data"], c["variables"],
+                                              c["operation_name"], early)
+                    except Exception as e:  # noqa: BLE001
+                        rnp = {"kind": "raised"}
+                    if rnp["kind"] in ("single", "incremental") and npi["kind"] == "response":
+                        ck.count("propagation_disabled_incremental_checked")
+                        inpi = observe_impl(rnp)
+                        mo7 = observe_model(npi)
+                        ig = sorted(((g[0], tuple(sorted(g[1]))) for g in inpi["groups"]), key=repr)
+                        mg = sorted(((g[0], tuple(sorted(g[1]))) for g in mo7["groups"]), key=repr)
+                        if inpi["data"] != mo7["data"] or ig != mg or inpi["failed"]:
+                            ck.violation(kid + ":npi", "incremental run with error propagation disabled differs from the model",
+                                         dict(replay_dict(sdl, c, "np-incremental", [inpi["data"], ig, sorted(inpi["failed"], key=repr)],
+                                                          [mo7["data"], mg])))
+                        if inpi["problems"] or unordered(inpi["merged"]) != unordered(inp["data"]):
+                            ck.violation(kid + ":c04-np", "with error propagation disabled the reassembled data differs from the "
+                                         "non-incremental response", dict(replay_dict(sdl, c, "c04-np", inpi["merged"], inp["data"])))
+                ierrs = list(impl["errors"]) + [e for g in impl["groups"] for e in g[3]] + list(impl.get("failed_errors", []))
+                why = explained(impl["merged"], inp["data"], (), ierrs, withheld)
+                lost = unaccounted(inp["errors"], ierrs, impl["merged"], withheld)
+                if lost and not why:
+                    why = f"errors of the non-propagating reference neither reported nor at an undelivered position: {lost[:3]}"
+                if why:
+                    ck.violation(kid + ":c04-errors", "error clause violated by the implementation: " + why,
+                                 dict(replay_dict(sdl, c, "error-clause", impl["merged"], inp["data"])))
     # resolver calls of the whole run as a multiset
     mcalls = list(model["calls"])
     for p in model["payloads"]:
@@ -548,10 +689,13 @@ def run_schema(ck, m, rng, n_docs, max_depth, p_bad):
     o3 = m.run_batch([[3] + c["wire"] for c in cases])
     o4 = m.run_batch([[4] + c["wire"] for c in cases])
     o2 = m.run_batch([[2] + c["wire"] for c in cases])
-    for c, a, b, d, e in zip(cases, o1, o3, o4, o2):
+    o5 = m.run_batch([[5] + c["wire"] for c in cases])
+    o6 = m.run_batch([[6] + c["wire"] for c in cases])
+    o7 = m.run_batch([[7] + c["wire"] for c in cases])
+    for c, a, b, d, e, f5, f6, f7 in zip(cases, o1, o3, o4, o2, o5, o6, o7):
         for f in c["features"]:
             ck.count("feature:" + f)
-        judge(ck, sdl, schema, c, (a, b, d, e), early=rng.random() < 0.3)
+        judge(ck, sdl, schema, c, (a, b, d, e, f5, f6, f7), early=rng.random() < 0.3)
 
 
 FIXED_SDL = DEFER_SDL + """
@@ -617,9 +761,12 @@ def fixed_cases(ck, m):
     o3 = m.run_batch([[3] + c["wire"] for c in cases])
     o4 = m.run_batch([[4] + c["wire"] for c in cases])
     o2 = m.run_batch([[2] + c["wire"] for c in cases])
-    for c, a, b, d, e in zip(cases, o1, o3, o4, o2):
+    o5 = m.run_batch([[5] + c["wire"] for c in cases])
+    o6 = m.run_batch([[6] + c["wire"] for c in cases])
+    o7 = m.run_batch([[7] + c["wire"] for c in cases])
+    for c, a, b, d, e, f5, f6, f7 in zip(cases, o1, o3, o4, o2, o5, o6, o7):
         for early in (False, True):
-            judge(ck, FIXED_SDL, schema, c, (a, b, d, e), early)
+            judge(ck, FIXED_SDL, schema, c, (a, b, d, e, f5, f6, f7), early)
 
 
 # --------------------------------------------------------------------------- the check
@@ -702,7 +849,10 @@ def core(ck, tier, model_ok):
             "extracted Incr/DeferExec model: initial data incl. key order, initial error paths, set of pending "
             "(path, label), multiset of execution groups (path, key set, error paths) and their delivery group, groups "
             "completed with errors, merged final data (model payloads merged by the extracted Incr/Merge oracle), "
-            "resolver calls (error-free runs). non-trivial = at least one execution group delivered")
+            "resolver calls (error-free runs); on runs with errors the error clause (nulls explained by reported errors, "
+            "missing keys = failed/withheld execution groups, errors of the non-propagating reference accounted for) on "
+            "implementation and model, and implementation run with propagation disabled == model np run. "
+            "non-trivial = at least one execution group delivered")
     ck.rule = (ck.rule + " || " + rule) if ck.rule else rule
 
 
@@ -718,7 +868,7 @@ def run_corpus_case(ck, m, c):
         return
     case = {"text": c["document"], "doc": doc, "variables": c.get("variables") or {}, "data": data, "wire": wire,
             "operation_name": c.get("operation_name"), "kinds": ["corpus"], "features": [], "injected": []}
-    outs = [m.run_batch([[op] + wire])[0] for op in (1, 3, 4, 2)]
+    outs = [m.run_batch([[op] + wire])[0] for op in (1, 3, 4, 2, 5, 6, 7)]
     judge(ck, c["sdl"], schema, case, outs, early=False)
 
 
